@@ -169,6 +169,19 @@ class Interp:
             if self.target == 'parser':
                 if p.pending() != want or len(p) != want:
                     self._fail('pending', f'pending()={p.pending()} len()={len(p)} expected {want}')
+        elif kind == 'fork':
+            # go on with a deep copy of the parser (a checkpoint taken in mid-stream); the original is fed something else
+            import copy
+            try:
+                clone = copy.deepcopy(p)
+            except Exception:  # noqa: BLE001
+                return              # not copyable: nothing is claimed
+            if type(clone) is type(p):
+                if self.target == 'parser':
+                    p.feed([0xB5, 0x07, 0x01, 0xF0, 0x02])
+                else:
+                    p.put_bytes([0xB5, 0x07, 0x01, 0xF0, 0x02])
+                self.p = clone
         elif kind == 'iter_all':
             self._retr_since_feed = True
             want = len(self.produced()) - len(self.got)
@@ -269,6 +282,15 @@ def check_segments(case):
 
 
 def run_case(case):
+    import mido.parser
+    import mido.tokenizer
+    import mido.backends._parser_queue as pq
+    from lib.doubles import jumping_clock
+    with jumping_clock(mido.tokenizer, mido.parser, pq):      # chunks may arrive at any pace
+        return _run_case(case)
+
+
+def _run_case(case):
     if case.get('kind') == 'segments':
         LAST_TAGS.clear()
         LAST_TAGS.add('chunk-per-segment')
@@ -340,6 +362,10 @@ def make_machine(target):
         @rule()
         def pending(self):
             self._do(('pending',))
+
+        @rule()
+        def fork(self):
+            self._do(('fork',))
 
         @rule()
         def iter_all(self):
